@@ -6,6 +6,7 @@ import struct
 
 from .. import gen
 from .. import harness as H
+from .. import env
 from ..env import lomond, lerrors
 from ..ref import ws as refws
 from ..ref import deflate_peer
@@ -206,6 +207,12 @@ def cases(tier, seed, i, n):
         for outer in (['send_binary', b'o' * 300], ['send_text', 'outer ' * 40], ['send_binary', b'O' * 70000]):
             for inner in (['send_ping', b'inner'], ['send_text', 'inner'], ['close', 1000, 'inner'], ['send_pong', b'']):
                 yield dict(kind='nested', outer=outer, inner=inner)
+                # ... on a connection with permessage-deflate: the outer message is in the middle of its compressed send
+                yield dict(kind='nested', outer=outer, inner=inner, z=True)
+                if outer[0] == 'send_text':
+                    yield dict(kind='nested', outer=outer + [False], inner=inner, z=True)
+                    if inner[0] == 'send_text':
+                        yield dict(kind='nested', outer=outer, inner=inner + [False], z=True)
         # (1c) calls made while the loop thread is inflating compressed messages from the server
         for prog in ('loop-server-ztext-snct+sender-z', 'loop-server-zbfinal+sender-z', 'loop-server-ztext+sender-z'):
             yield dict(kind='threads', prog=prog, mode='dfs', max_runs=400 if tier == 'quick' else 4000)
@@ -319,7 +326,8 @@ def run_nested(case, acc):
     whole - the nested call is refused (WebSocketError) or its frame goes out before / after, never inside."""
     from .. import simnet
     outer, inner = case['outer'], case['inner']
-    w = H.World(H.hs_server([]), split_send=True)
+    z = bool(case.get('z'))
+    w = H.World(H.hs_server([], dict(extra=[('Sec-WebSocket-Extensions', 'permessage-deflate')]) if z else None), split_send=True)
     rec = {}
 
     def policy(ws, ev, idx, run):
@@ -331,13 +339,19 @@ def run_nested(case, acc):
             if done:
                 return
             done.append(1)
-            rec['inner'] = H.app_call(run, ws, inner[0], *inner[1:])
+            try:
+                rec['inner'] = H.app_call(run, ws, inner[0], *inner[1:])
+            except env.SelfDeadlock as e:
+                # with threading.Lock this call never returns: the thread waits for a lock it holds itself
+                rec['inner'] = dict(ok=False, exc=repr(e), exc_type=None, deadlock=True)
         w.yield_hook = hook
         rec['outer'] = H.app_call(run, ws, outer[0], *outer[1:])
         w.yield_hook = None
 
-    run = H.drive(w, connect_kwargs=dict(ping_rate=0), policy=policy, companion=False)
+    run = H.drive(w, ws_kwargs=dict(compress=True) if z else None, connect_kwargs=dict(ping_rate=0), policy=policy, companion=False)
     acc.count2('oracle', 'nested_call_runs')
+    if z:
+        acc.count2('oracle', 'nested_call_runs_on_a_compressed_connection')
     if 'inner' not in rec:
         acc.inconclusive.append('nested: the outer call never reached the middle of its write: %r' % (case,))
         return
@@ -345,6 +359,8 @@ def run_nested(case, acc):
     detail = dict(outer=(rec['outer']['ok'], rec['outer']['exc']), inner=(rec['inner']['ok'], rec['inner']['exc']),
                   frames=[(f['opcode'], len(f['payload'])) for f in frames], residue=residue[:40], errors=errors)
     key = None
+    if rec['inner'].get('deadlock'):
+        key = 'would-hang:self-deadlock-on-lock:call-nested-in-a-compressed-send-of-the-same-thread'
     for r in (rec['outer'], rec['inner']):
         if r['exc_type'] is not None and not issubclass(r['exc_type'], lerrors.WebSocketError):
             key = 'nested-call-raised-non-websocket-error:%s' % r['exc_type'].__name__
@@ -355,18 +371,40 @@ def run_nested(case, acc):
         for r, call in ((rec['outer'], outer), (rec['inner'], inner)):
             if r['ok']:
                 want.append(call)
-        sigs = [(f['opcode'], f['payload']) for f in frames]
+        sigs = []
+        peer = None
+        if z:
+            from ..ref import deflate_peer
+            peer = deflate_peer.Peer()
+        for f in frames:
+            pl = f['payload']
+            if f['rsv1'] and peer is not None and f['opcode'] in (1, 2):
+                try:
+                    pl = peer.inflate(pl)
+                except Exception as e:   # noqa
+                    key = 'compressed-frame-not-inflatable:call-nested-in-the-write-of-the-same-thread'
+                    detail['inflate'] = repr(e)
+                    break
+            sigs.append((f['opcode'], bytes(pl)))
         for call in want:
+            if key:
+                break
             op = {'send_text': 1, 'send_binary': 2, 'send_ping': 9, 'send_pong': 10, 'close': 8}[call[0]]
             if op == 8:
-                # close() reports a Close frame that could not be written by entering the closing state, not by
-                # raising (same as for a failed write): a missing Close frame is not judged here
-                ok = True
+                # nothing is wrong with the transport here: a close() that returns normally has been accepted, its
+                # Close frame (code, reason) is on the wire - otherwise the object is "closing" for ever with a
+                # server that was never told
+                ok = (8, refws.close_payload(call[1], call[2])) in sigs
+                if not ok:
+                    key = 'accepted-close-wrote-no-frame:close-nested-in-the-write-of-the-same-thread'
+                    break
             else:
                 pl = call[1].encode('utf-8') if isinstance(call[1], str) else call[1]
                 ok = (op, pl) in sigs
             if not ok:
                 key = 'payload-does-not-round-trip:call-nested-in-the-write-of-the-same-thread'
+        if key is None and len(sigs) != len(want):
+            key = 'not-exactly-one-frame:frames-on-the-wire-differ-from-the-accepted-calls'
     if key:
         acc.violation(key, 'C03 %s: %s inside the write of %s' % (key, inner[0], outer[0]), case, detail)
     else:
